@@ -290,7 +290,8 @@ def compute_features_3d(sigs, fs, f_range, compute_features_kwargs=None, axis=0,
         # Reshape
         for dim0_idx in range(np.shape(sigs)[0]):
             for dim1_idx in range(np.shape(sigs)[1]):
-                dfs_features[dim0_idx][dim1_idx] = df_2d[dim0_idx + dim1_idx]
+                #   df_2d is in row-major order of the first two dimensions
+                dfs_features[dim0_idx][dim1_idx] = df_2d[dim0_idx * np.shape(sigs)[1] + dim1_idx]
 
     return dfs_features
 
